@@ -47,10 +47,12 @@ inline ref::VolImage imageOf(const std::vector<Member>& ms, uint32_t spare) {
 inline void genMembers(Plan& p, Rng& r, size_t maxMembers, size_t maxLen, bool allowLzh) {
 	size_t n;
 	switch (r.below(5)) { case 0: n = 0; break; case 1: n = 1; break; default: n = r.range(1, maxMembers); break; }
+	if (maxMembers >= 8 && r.chance(1, 10)) n = r.range(17, 40); // beyond the sizes at which an implementation might switch its search strategy
 	std::vector<std::string> names;
 	for (size_t i = 0; i < n; ++i) {
 		std::string nm = randName(r, 1, 12, true);
 		if (!names.empty() && r.chance(1, 3)) { const std::string& o = names[r.below(names.size())]; nm = o.substr(0, 1 + r.below(o.size())) + randName(r, 1, 2, false); }
+		if (!names.empty() && r.chance(1, 5)) nm = tieProneSibling(names[r.below(names.size())], r);
 		if (!names.empty() && r.chance(1, 4)) { std::string sib = bit5Sibling(names[r.below(names.size())], r); if (!sib.empty()) nm = sib; }
 		else if (r.chance(1, 6)) { static const char* P[] = {"[", "{", "@", "`", "^", "~", "]", "}"}; nm.insert(r.below(nm.size() + 1), P[r.below(8)]); }
 		names.push_back(nm);
